@@ -103,19 +103,21 @@ def check(ctx):
             ctor["recompute_every"] = 1
         cfg = f"{pkg}.{cname}"
         X, y = arr("X", "N", "M"), arr("y", "N", "P")
-        # (a) cold initialisation: the resolved request only sizes buffers
-        I = ctx.interp(order=[("S", "<=", S)], assume=protocols.assume_default)
-        st = State()
-        o = ctx.construct(I, st, cls, **ctor)
-        st.heap[o.obj.id]["_axis"] = vconst(axis)
-        ctx.call_method(I, st, o, "_init_greedy_search", X, y, integer("S", labels=("nts",)))
-        heap = st.heap[o.obj.id]
-        site_i = ctx.site(P.method(cls, "_init_greedy_search"))
-        for a in SINKS:
-            v = heap.get(a)
-            if v is None or v.kind in ("undef", "none"):
-                continue
-            ctx.ob("NONINTERFERENCE", f"{cfg}.{a} after cold initialisation does not depend on the requested count", "nts" not in v.labels, f"labels {sorted(v.labels)}: {repr(v.term)[:200]}", site_i, cfg)
+        # (a) cold initialisation: the resolved request only sizes buffers (also when the first pick is drawn at random)
+        for init_kind in ((None, "random") if "FPS" in cname else (None,)):
+            I = ctx.interp(order=[("S", "<=", S)], assume=protocols.assume_default)
+            st = State()
+            o = ctx.construct(I, st, cls, **(dict(ctor, initialize="random") if init_kind else ctor))
+            st.heap[o.obj.id]["_axis"] = vconst(axis)
+            ctx.call_method(I, st, o, "_init_greedy_search", X, y, integer("S", labels=("nts",)))
+            heap = st.heap[o.obj.id]
+            site_i = ctx.site(P.method(cls, "_init_greedy_search"))
+            cfg_i = cfg + (" initialize=random" if init_kind else "")
+            for a in SINKS:
+                v = heap.get(a)
+                if v is None or v.kind in ("undef", "none"):
+                    continue
+                ctx.ob("NONINTERFERENCE", f"{cfg_i}.{a} after cold initialisation does not depend on the requested count", "nts" not in v.labels, f"labels {sorted(v.labels)}: {repr(v.term)[:200]}", site_i, cfg_i)
         # (b) one greedy step on a symbolic mid-search state: decision and state update
         for with_thr in (False, True):
             I = ctx.interp(order=[("S", "<=", S)], assume=_assume_warm)
